@@ -2,7 +2,10 @@
    REGENERATED from /repo on this run, instantiated at rationals rounded to 220 bits per
    operation (Vec/QRInst.v; qsqrt / qatan2 of Sem/QInst.v are accurate to ~1e-40, so the model
    angle is effectively exact), and the
-   comparison with the implementation's observations, done inside Coq. *)
+   comparison with the implementation's observations, done inside Coq.  The same [run] names serve the
+   observations of the PUBLIC entry points (scippneutron.L1(da), ..., transform_coords through the
+   graphs): what they must return is the Euclidean composition "pos>..." of the three positions the
+   data carries ("coord": the coordinate itself; "beams>Ltotal": data that carries the two beams). *)
 From Coq Require Import QArith Qabs ZArith String List Bool.
 From Verif.Sem Require Import Field Val QInst Corr.
 From Verif.Vec Require Import QRInst.
